@@ -1,0 +1,173 @@
+//go:build verif
+
+// Contracts for the deductive verifier in /verif (govc). This file contains
+// comments only and is compiled only under the "verif" build tag.
+
+package avl
+
+/*@
+// ---------------------------------------------------------------- C01, C02: the AVL tree
+// Nodes are an OWNED recursive structure: a *node is viewed as the algebraic value
+//   Tree = Leaf | Node(l, v, h, r)      (l, r: the subtrees, v: the value, h: the STORED height)
+// and every path of the symbolic execution carries ownership chunks (see /verif/engine/owned.go).
+adt Tree = Leaf | Node(l Tree, v T, h int, r Tree)
+owned node view Tree nil Leaf ctor Node(left, value, height, right)
+
+// the comparator: an abstract total preorder consistent with == (the property's hypothesis)
+spec cmp(a T, b T) int
+axiom cmp_eq(a T, b T) auto: {cmp(a, b)} (cmp(a, b) == 0) == (a == b)
+axiom cmp_anti(a T, b T) auto: {cmp(a, b)} (cmp(a, b) < 0) == (cmp(b, a) > 0)
+axiom cmp_trans(a T, b T, c T) auto: {cmp(a, b), cmp(b, c)} cmp(a, b) <= 0 && cmp(b, c) <= 0 ==> cmp(a, c) <= 0
+spec iscmp(f func) bool = forall a T, b T :: {f(a, b)} f(a, b) == cmp(a, b)
+
+// multiset, size, real height
+spec cnt(t Tree, x T) int
+axiom cnt_leaf(x T) auto: {cnt(Leaf, x)} cnt(Leaf, x) == 0
+axiom cnt_node(l Tree, v T, h int, r Tree, x T) auto: {cnt(Node(l, v, h, r), x)} cnt(Node(l, v, h, r), x) == cnt(l, x) + b2i(v == x) + cnt(r, x) && cnt(l, x) >= 0 && cnt(r, x) >= 0
+spec size(t Tree) int
+axiom size_leaf() auto: size(Leaf) == 0
+axiom size_node(l Tree, v T, h int, r Tree) auto: {Node(l, v, h, r)} size(Node(l, v, h, r)) == size(l) + 1 + size(r) && size(l) >= 0 && size(r) >= 0
+spec hgt(t Tree) int
+axiom hgt_leaf() auto: hgt(Leaf) == -1
+axiom hgt_node(l Tree, v T, h int, r Tree) auto: {Node(l, v, h, r)} hgt(Node(l, v, h, r)) == 1 + max(hgt(l), hgt(r)) && hgt(l) >= -1 && hgt(r) >= -1
+
+// hok: every stored height is the real height; avl: heights of siblings differ by at most one;
+// bst: values in the left subtree are <= the node's value, in the right subtree >= (non-strict on BOTH sides:
+// rotations move values equal to the pivot to the other side)
+spec hok(t Tree) bool
+axiom hok_leaf() auto: hok(Leaf)
+axiom hok_node(l Tree, v T, h int, r Tree) auto: {Node(l, v, h, r)} hok(Node(l, v, h, r)) == (hok(l) && hok(r) && h == 1 + max(hgt(l), hgt(r)))
+spec avl(t Tree) bool
+axiom avl_leaf() auto: avl(Leaf)
+axiom avl_node(l Tree, v T, h int, r Tree) auto: {Node(l, v, h, r)} avl(Node(l, v, h, r)) == (avl(l) && avl(r) && hgt(l) - hgt(r) <= 1 && hgt(r) - hgt(l) <= 1)
+spec bst(t Tree) bool
+axiom bst_leaf() auto: bst(Leaf)
+axiom bst_node(l Tree, v T, h int, r Tree) auto: {Node(l, v, h, r)} bst(Node(l, v, h, r)) == (bst(l) && bst(r) && (forall x T :: {cnt(l, x)} cnt(l, x) > 0 ==> cmp(x, v) <= 0) && (forall x T :: {cnt(r, x)} cnt(r, x) > 0 ==> cmp(x, v) >= 0))
+
+spec good(t Tree) bool = bst(t) && hok(t) && avl(t)
+spec lt(t Tree) Tree = Node_l(t)
+spec rt(t Tree) Tree = Node_r(t)
+
+func node.leftHeight
+  property C02
+  requires n != nil && hok(lt(view(n)))
+  ensures result == hgt(lt(view(n)))
+
+func node.rightHeight
+  property C02
+  requires n != nil && hok(rt(view(n)))
+  ensures result == hgt(rt(view(n)))
+
+func node.calcHeight
+  property C02
+  requires n != nil && hok(lt(view(n))) && hok(rt(view(n)))
+  ensures result == 1 + max(hgt(lt(view(n))), hgt(rt(view(n))))
+
+func node.balance
+  property C02
+  requires n != nil && hok(lt(view(n))) && hok(rt(view(n)))
+  ensures[left]  hgt(lt(view(n))) - hgt(rt(view(n))) > 1 ==> result == -1
+  ensures[right] hgt(rt(view(n))) - hgt(lt(view(n))) > 1 ==> result == 1
+  ensures[even]  hgt(lt(view(n))) - hgt(rt(view(n))) <= 1 && hgt(rt(view(n))) - hgt(lt(view(n))) <= 1 ==> result == 0
+
+// rotations: exact result shape; the moved subtrees keep their values, heights are recomputed
+func node.rotateLeft
+  property C01, C02
+  owns n
+  gives result
+  requires n != nil && !isLeaf(rt(view(n))) && hok(lt(view(n))) && hok(lt(rt(view(n)))) && hok(rt(rt(view(n))))
+  let a = lt(view(n))
+  let b = lt(rt(view(n)))
+  let c = rt(rt(view(n)))
+  ensures[shape] result != nil && view(result) == Node(Node(old(a), old(Node_v(view(n))), 1 + max(hgt(old(a)), hgt(old(b))), old(b)), old(Node_v(rt(view(n)))), 1 + max(1 + max(hgt(old(a)), hgt(old(b))), hgt(old(c))), old(c))
+
+func node.rotateRight
+  property C01, C02
+  owns n
+  gives result
+  requires n != nil && !isLeaf(lt(view(n))) && hok(rt(view(n))) && hok(lt(lt(view(n)))) && hok(rt(lt(view(n))))
+  let a = lt(lt(view(n)))
+  let b = rt(lt(view(n)))
+  let c = rt(view(n))
+  ensures[shape] result != nil && view(result) == Node(old(a), old(Node_v(lt(view(n)))), 1 + max(hgt(old(a)), 1 + max(hgt(old(b)), hgt(old(c)))), Node(old(b), old(Node_v(view(n))), 1 + max(hgt(old(b)), hgt(old(c))), old(c)))
+
+func node.rotateLeftRight
+  property C01, C02
+  owns n
+  gives result
+  requires n != nil && !isLeaf(rt(view(n))) && !isLeaf(lt(rt(view(n)))) && hok(lt(view(n))) && hok(rt(rt(view(n)))) && hok(lt(lt(rt(view(n))))) && hok(rt(lt(rt(view(n)))))
+  let a = lt(view(n))
+  let b = lt(lt(rt(view(n))))
+  let c = rt(lt(rt(view(n))))
+  let d = rt(rt(view(n)))
+  ensures[shape] result != nil && view(result) == Node(Node(old(a), old(Node_v(view(n))), 1 + max(hgt(old(a)), hgt(old(b))), old(b)), old(Node_v(lt(rt(view(n))))), 1 + max(1 + max(hgt(old(a)), hgt(old(b))), 1 + max(hgt(old(c)), hgt(old(d)))), Node(old(c), old(Node_v(rt(view(n)))), 1 + max(hgt(old(c)), hgt(old(d))), old(d)))
+
+func node.rotateRightLeft
+  property C01, C02
+  owns n
+  gives result
+  requires n != nil && !isLeaf(lt(view(n))) && !isLeaf(rt(lt(view(n)))) && hok(rt(view(n))) && hok(lt(lt(view(n)))) && hok(lt(rt(lt(view(n))))) && hok(rt(rt(lt(view(n)))))
+  let a = lt(lt(view(n)))
+  let b = lt(rt(lt(view(n))))
+  let c = rt(rt(lt(view(n))))
+  let d = rt(view(n))
+  ensures[shape] result != nil && view(result) == Node(Node(old(a), old(Node_v(lt(view(n)))), 1 + max(hgt(old(a)), hgt(old(b))), old(b)), old(Node_v(rt(lt(view(n))))), 1 + max(1 + max(hgt(old(a)), hgt(old(b))), 1 + max(hgt(old(c)), hgt(old(d)))), Node(old(c), old(Node_v(view(n))), 1 + max(hgt(old(c)), hgt(old(d))), old(d)))
+
+// rebalance: the root's stored height is right, the children are good AVL trees whose heights differ by at
+// most two; the result is a good AVL tree with the same multiset whose height dropped by at most one
+func node.rebalance
+  property C01, C02
+  owns n
+  gives result
+  requires n != nil && good(lt(view(n))) && good(rt(view(n))) && hok(view(n)) && bst(view(n))
+  requires hgt(lt(view(n))) - hgt(rt(view(n))) <= 2 && hgt(rt(view(n))) - hgt(lt(view(n))) <= 2
+  ensures[good]   result != nil && good(view(result))
+  ensures[cnt]    forall x T :: {cnt(view(result), x)} cnt(view(result), x) == old(cnt(view(n), x))
+  ensures[size]   size(view(result)) == old(size(view(n)))
+  ensures[height] hgt(view(result)) == old(hgt(view(n))) || hgt(view(result)) == old(hgt(view(n))) - 1
+  ensures[same]   old(avl(view(n))) ==> hgt(view(result)) == old(hgt(view(n)))
+
+func node.add
+  property C01, C02
+  owns n
+  gives result
+  requires n != nil && good(view(n)) && iscmp(compare)
+  ensures[good]   result != nil && good(view(result))
+  ensures[cnt]    forall x T :: {cnt(view(result), x)} cnt(view(result), x) == old(cnt(view(n), x)) + b2i(x == value)
+  ensures[size]   size(view(result)) == old(size(view(n))) + 1
+  ensures[height] hgt(view(result)) == old(hgt(view(n))) || hgt(view(result)) == old(hgt(view(n))) + 1
+
+func node.popLeftMost
+  property C01, C02
+  owns n
+  gives child, node(leftMost)
+  requires n != nil && good(view(n))
+  ensures[min]    leftMost != nil && cnt(old(view(n)), leftMost.value) > 0 && (forall x T :: {cnt(view(child), x)} cnt(view(child), x) > 0 ==> cmp(leftMost.value, x) <= 0)
+  ensures[good]   good(view(child))
+  ensures[cnt]    forall x T :: {cnt(view(child), x)} cnt(view(child), x) == cnt(old(view(n)), x) - b2i(x == leftMost.value)
+  ensures[size]   size(view(child)) == old(size(view(n))) - 1
+  ensures[height] hgt(view(child)) == old(hgt(view(n))) || hgt(view(child)) == old(hgt(view(n))) - 1
+
+func node.remove
+  property C01, C02
+  owns n
+  gives result0
+  requires n != nil && good(view(n)) && iscmp(compare)
+  ensures[ok]      result1 == old(cnt(view(n), value) > 0)
+  ensures[absent]  !result1 ==> result0 == n && view(result0) == old(view(n))
+  ensures[good]    good(view(result0))
+  ensures[cnt]     result1 ==> (forall x T :: {cnt(view(result0), x)} cnt(view(result0), x) == old(cnt(view(n), x)) - b2i(x == value))
+  ensures[size]    result1 ==> size(view(result0)) == old(size(view(n))) - 1
+  ensures[height]  result1 ==> hgt(view(result0)) == old(hgt(view(n))) || hgt(view(result0)) == old(hgt(view(n))) - 1
+
+func node.find
+  property C01
+  requires n != nil && bst(view(n)) && iscmp(compare)
+  ensures[def] (result != nil) == (cnt(view(n), value) > 0)
+  loop 0 invariant current != nil && bst(view(current)) && (cnt(view(n), value) > 0) == (cnt(view(current), value) > 0)
+
+func node.contains
+  property C01
+  requires n != nil && bst(view(n)) && iscmp(compare)
+  ensures[def] result == (cnt(view(n), value) > 0)
+@*/
